@@ -195,6 +195,7 @@ def cn_instances():
         (["1", "5", "7"], ["7", "7", "7"], 2, "5", None, 4, 0.3),                     # three copies of a partial-deletion configuration planted
         (["1", "36"], ["1", "1"], 2, None, None, 3, 0.3),
         (["1", "5"], ["1", "5"], 1, "5", None, 4, 0.0),
+        (["1", "5", "36", "68", "7"], ["1", "36", "68"], 2, "5", None, 5, 40.0),       # five configurations, four copies, a very wide gap: a long report
     ]
     for names, planted, parts, dele, fs, mx, gap in fixed:
         cfgs = {k: Obj(cn=[dict(pp) for pp in v.cn[:parts]], kind=v.kind, alleles=set(), description="") for k, v in full.items() if k in names}
